@@ -137,6 +137,7 @@ class _MathObjectBuffers:
     @staticmethod
     def scatter_element_add(t, idx, v, **k):
         t = np.array(t, dtype=object, copy=True)
+        idx = tuple(idx) if isinstance(idx, list) else idx  # pennylane convention: a list of per-axis index sequences
         t[idx] = t[idx] + v
         return t
 
